@@ -162,6 +162,31 @@ func (o *ordEval) callSet(c *ssa.Call, idx int, env *ordEnv) int {
 		o.why = "call of a non-module / dynamic predicate constructor at " + o.p.InstrPos(c)
 		return -1
 	}
+	// short-circuit fold combinators (or(a, b, ...) / and(a, b, ...)): union / intersection of the operands
+	for _, isAnd := range []bool{false, true} {
+		if ok, _ := checkFold(o.p, f, isAnd); ok && len(c.Common().Args) == 1 {
+			els := variadicElems(c.Common().Args[0])
+			if len(els) == 0 {
+				break
+			}
+			res := 0
+			if isAnd {
+				res = 7
+			}
+			for _, el := range els {
+				s := o.predSet(el, env)
+				if s < 0 {
+					return -1
+				}
+				if isAnd {
+					res &= s
+				} else {
+					res |= s
+				}
+			}
+			return res
+		}
+	}
 	ne := &ordEnv{bind: map[ssa.Value]ssa.Value{}, outer: env}
 	for i, prm := range f.Params {
 		if i < len(c.Common().Args) {
@@ -278,7 +303,13 @@ func (o *ordEval) boolSet(v ssa.Value, env *ordEnv) int {
 			}
 		}
 	}
-	o.why = fmt.Sprintf("unsupported boolean form %T at %s", v, o.p.InstrPos(v.(ssa.Instruction)))
+	if k, ok := constBool(v); ok {
+		if k {
+			return 7
+		}
+		return 0
+	}
+	o.why = fmt.Sprintf("unsupported boolean form %T (%s)", v, v.String())
 	return -1
 }
 
